@@ -165,6 +165,13 @@ func init() {
 				c.Do(subC17, &progCase{Src: src})
 				return !c.Expired()
 			}
+			// the implementation limits are part of what is accepted: programs just below / at / above each limit (nesting 15..18,
+			// 1022..1025 variables, operand depth 1022..1026) are accepted or refused exactly as the reference says
+			for _, sc := range gen.ScaledFamilies(false) {
+				if strings.HasPrefix(sc.Name, "nest-") || strings.HasPrefix(sc.Name, "nestthen-") || strings.HasPrefix(sc.Name, "vars-") || strings.HasPrefix(sc.Name, "stackdepth-") {
+					do(sc.Src)
+				}
+			}
 			simple, all := c17Statements()
 			// (b) sentences and their mutations
 			mutate := func(src string) bool {
